@@ -378,7 +378,7 @@ HARNESSES = [
 
 
 # ---- the writer's call sites (engine X): tokens are acquired before backend work, one per operation ------------------------
-from vp_lib.api import H, cover  # noqa: E402
+from vp_lib.api import H, cover, pick  # noqa: E402
 from vp_lib import cachelab as K  # noqa: E402
 from vp_lib import writerlab as W  # noqa: E402
 from vp_lib.cachelab import sset  # noqa: E402
@@ -493,4 +493,91 @@ HARNESSES += [
   H('C20_shutdown_limits', quick=dict(timeout=60), covers=['ran'],
     encodes=['carbon.writer:shutdownModifyUpdateSpeed'],
     assumptions=['both buckets present/absent, MAX_UPDATES_PER_SECOND_ON_SHUTDOWN set/unset, symbolic MIN_TIMESTAMP_LAG']),
+]
+
+
+# ---- the writer with the REAL TokenBucket objects in arbitrary fill states ---------------------------------------
+import carbon.util as _cutil  # noqa: E402
+
+FILLS = [5.0, 1.0, 0.5, 0.0, -2.0]          # tokens left in a bucket of capacity 5: full, exactly one, a fraction, empty, in debt
+
+
+class _BClock(object):
+  def __init__(self):
+    self.now = 1000.0
+
+  def time(self):
+    return self.now
+
+  def sleep(self, d):
+    if d < 0:
+      raise ValueError('sleep length must be non-negative')
+    self.now += d
+
+
+def C20_real_buckets(b0: bool, b2: bool, ea: bool, cfill: int, ufill: int, shutdown_first: bool) -> bool:
+  """
+  pre: 0 <= cfill < len(FILLS) and 0 <= ufill < len(FILLS)
+  post: __return__
+  """
+  # whatever is left in the real buckets (in particular nothing): a configured limit stays a limit - every
+  # write takes an update token through a blocking acquisition, every create takes a create token, and the
+  # limit change at shutdown reaches both buckets
+  clock = _BClock()
+  old = (_cutil.time, _cutil.sleep)
+  _cutil.time, _cutil.sleep = clock.time, clock.sleep
+  calls = []
+  try:
+    cb, ub = _cutil.TokenBucket(5, 1), _cutil.TokenBucket(5, 1)
+    cb._tokens, ub._tokens = pick(FILLS, cfill), pick(FILLS, ufill)
+    for name, bucket in (('create', cb), ('update', ub)):
+      def drain(cost, blocking=False, _n=name, _d=bucket.drain):
+        ok = _d(cost, blocking)
+        calls.append((_n + '_drain', cost, blocking, ok))
+        return ok
+      bucket.drain = drain
+    cache = K.build(K.SHADOW, 3, [b0, False, b2, False], [1, 2, 3, 4], 0)
+    db = W.RecordingDB(preexisting=(['a'] if ea else []) + ['c'])
+    db.hook = lambda kind, metric: calls.append((kind, metric))
+    W.install(cache, db, cb, ub)
+    sset('MAX_UPDATES_PER_SECOND_ON_SHUTDOWN', 777)
+    try:
+      if shutdown_first:
+        W.writer.shutdownModifyUpdateSpeed()
+        if cb.capacity != 777.0 or ub.capacity != 777.0 or cb.fill_rate != 777.0 or ub.fill_rate != 777.0:
+          raise AssertionError('limit change at shutdown did not reach a bucket holding %r / %r tokens' % (pick(FILLS, cfill), pick(FILLS, ufill)))
+      W.writer.writeCachedDataPoints()
+    finally:
+      W.restore()
+      sset('MIN_TIMESTAMP_LAG', 0)
+      _settings.__dict__.pop('MIN_TIMESTAMP_LAG', None)
+      _settings.pop('MAX_UPDATES_PER_SECOND_ON_SHUTDOWN', None)
+  finally:
+    _cutil.time, _cutil.sleep = old
+  cover('ran')
+  tokens = {'create': 0, 'update': 0}
+  for ev in calls:
+    if ev[0] in ('create_drain', 'update_drain'):
+      if ev[3]:
+        tokens[ev[0].split('_')[0]] += 1
+      if ev[0] == 'update_drain' and not (ev[2] and ev[3]):
+        raise AssertionError('update token not acquired by a blocking, granted acquisition')
+    elif ev[0] == 'create':
+      if tokens['create'] < 1:
+        raise AssertionError('database.create() without a create token although MAX_CREATES_PER_MINUTE is configured')
+      tokens['create'] -= 1
+      cover('created')
+    elif ev[0] == 'write':
+      if tokens['update'] < 1:
+        raise AssertionError('database.write() without an update token although MAX_UPDATES_PER_SECOND is configured')
+      tokens['update'] -= 1
+      cover('written')
+  return True
+
+
+HARNESSES += [
+  H('C20_real_buckets', quick=dict(timeout=200), covers=['ran', 'created', 'written'],
+    encodes=['carbon.writer:writeCachedDataPoints / shutdownModifyUpdateSpeed (the "is a limit configured" tests)', 'carbon.util:TokenBucket (real objects, concrete fill states)'],
+    assumptions=['real TokenBucket(5, 1) objects whose remaining tokens come from a table (full, one, fraction, empty, debt; symbolic indices); carbon.util time/sleep = virtual clock; '
+                 'sorted strategy, 0-2 metrics, files pre-existing or not']),
 ]
